@@ -125,6 +125,7 @@ def instances_for(tier):
     out += fam("L two-sided x P", I.family_L(True))
     out += fam("Q full quotas (structures 0,2,3,4)", q_family(True, (0, 2, 3, 4)))
     out += fam("HR two-sided x P (ns+nh<=5)", I.family_HR(True))
+    out += fam("W3: ids above 256 (302 projects)", I.family_W3())
     out += fam("F4: student lists over four projects (all weak orders) x 3 lecturer maps x "
                "restricted lecturer orders x {unit,cap2,lectight}", I.family_F4())
     if tier == "thorough":
